@@ -13,18 +13,28 @@ theorem C37_counter_exact (es : List Ev) :
     (runEvs {} es).counter = ((runEvs {} es).zero : Int) :=
   (run_inv es {} rfl (Or.inr (Nat.zero_le _))).1
 
-/-- **bounded**: at the end of every serve-loop iteration the connection is closed or at most `limit`
-    stream-less frames are queued. -/
+/-- **the check runs in every iteration** (regenerated fact): in the current server.go the comparison
+    `queuedControlFrames > maxQueuedControlFrames()` followed by `return` is the last statement of serve()'s
+    `for` body, directly after the `select` — not inside the handling of one kind of event or of one
+    outcome (e.g. only for frames processed without error).  If it is moved this theorem no longer
+    builds, and the model's `step = check ∘ body` no longer describes the code. -/
+theorem C37_check_every_iteration : checkEveryIteration = true := by decide
+
+/-- **bounded**: the limit check runs at the end of EVERY serve-loop iteration — whether the frame was
+    processed normally, ended in a stream error + RST_STREAM, or the event was not a frame at all — and
+    therefore at the end of every iteration the connection is closed or at most `limit` stream-less
+    frames are queued. -/
 theorem C37_bounded (es : List Ev) :
-    (runEvs {} es).closed = true ∨ (runEvs {} es).zero ≤ limit :=
-  (run_inv es {} rfl (Or.inr (Nat.zero_le _))).2
+    checkEveryIteration = true ∧
+    ((runEvs {} es).closed = true ∨ (runEvs {} es).zero ≤ limit) :=
+  ⟨C37_check_every_iteration, (run_inv es {} rfl (Or.inr (Nat.zero_le _))).2⟩
 
 /-- **bounded inside an iteration**: while an iteration runs, the queue of a still-open connection holds
     at most `limit + k` stream-less frames, `k` = number the processed frame queues (k ≤ 2 for every
     frame type bfe handles: PING 1, stream error 1, DATA on a closed stream 2, padding refund 1). -/
 theorem C37_bounded_within (es : List Ev) (e : Ev) (h : (runEvs {} es).closed = false) :
     (body (runEvs {} es) e).zero ≤ limit + e.k := by
-  have hb := C37_bounded es
+  have hb := (C37_bounded es).2
   have := body_zero_le (runEvs {} es) e
   rcases hb with hc | hle
   · rw [h] at hc; simp at hc
